@@ -164,6 +164,15 @@ impl Blowfish {
     }
 }
 
+#[cfg(physis_verif)]
+impl Blowfish {
+    /// Verification hook (only with `--cfg physis_verif`): the constant P-array and S-boxes
+    /// before any key is mixed in, so that they can be compared with the digits of pi.
+    pub fn verif_initial_tables() -> ([u32; 18], [[u32; 256]; 4]) {
+        (BLOWFISH_P, BLOWFISH_S)
+    }
+}
+
 #[cfg(test)]
 mod tests {
     use super::*;
